@@ -243,6 +243,28 @@ def apply(text, gen, enabled='', fn_id='?', local=()):
             key = f'{rid}:{name}'
             hits[key] = hits.get(key, 0) + cnt
 
+    # R14: X.ok_or_else(|| E) -> X.ok_or(E)   (std: ok_or_else calls the closure exactly when the value is None; E builds an error value
+    # without side effects, so evaluating it eagerly gives the same result -- Verus has no specification for what a closure returns)
+    k = 0
+    while True:
+        i = out.find('.ok_or_else(||', k)
+        if i < 0:
+            break
+        j = i + len('.ok_or_else(')
+        depth, q = 1, j
+        while q < len(out) and depth:
+            if out[q] == '(':
+                depth += 1
+            elif out[q] == ')':
+                depth -= 1
+            q += 1
+        body = out[j + 2:q - 1]
+        if depth == 0 and 'return' not in body and '?' not in body:
+            out = out[:i] + '.ok_or(' + body.strip() + ')' + ('\n' * (out[i:q].count('\n') - body.strip().count('\n'))) + out[q:]
+            hits['R14:ok_or_else(|| E) -> ok_or(E)'] = hits.get('R14:ok_or_else(|| E) -> ok_or(E)', 0) + 1
+            k = i + 7
+        else:
+            k = q
     for rid, name, rx, repl in TABLE:
         run(rid, name, rx, repl)
     for opt in [o for o in enabled.split(',') if o]:
